@@ -7,6 +7,10 @@ spec/C11/TwoPC.tla        M-spec: acceptor / proposer / network regions of twopc
 spec/C11/MCTwoPC.tla      model-checking wrapper + scopes; MC*.cfg exhaustive / simulation configurations
 spec/C11/DWReplay.tla     the double-winner schedule replayed on the model with / without the filter
 spec/C11/LCReplay.tla     the lost-Commit schedule replayed on the model with / without the Commit retry
+spec/C11/RWGen.tla        schedule generator: on the model variant "a reject reply carries the working value" TLC searches
+                          for a lagging proposer that catches up from a replica with an uncommitted write (6 family members)
+spec/C11/RWReplay.tla     the six generated schedules pinned: followed on the variant (ends with two values for one
+                          version) and on the repaired model (invariants hold; exported as cases for the code)
 spec/C11/TwoPCTrace.tla   M-level trace spec (conformance; a case that cannot be followed is model drift)
 harness/cmd/c11drv        gating ReplicaHandle over the real RPC and in-process transports, scripted
                           (TLC schedules) and seeded random schedules, drain, observations, solo phase
@@ -14,6 +18,7 @@ harness/cmd/c11drv        gating ReplicaHandle over the real RPC and in-process 
 import glob, json, os, re, shutil, threading
 import vcommon as V
 
+RW_FAMS = ["pc_insect", "pc_prep", "ab_insect", "ab_prep", "cm_insect", "cm_prep"]
 INVS = ["SameValuePerVersion", "OneWinnerPerVersion", "VersionsMonotone", "StaleReadAborts", "Released",
         "Progress", "NoPanic"]
 
@@ -91,7 +96,7 @@ def judge(chk, work, good, bycase, stat, chunks):
     def one(tr):
         # the targeted schedules come first; a flood of rejections on one transport must not hide the other
         mine = [s for s in good if s[0].get("tr") == tr]
-        mine.sort(key=lambda s: 0 if s[0].get("case", "").startswith(("dw-", "rel-", "lostcommit-")) else 1)
+        mine.sort(key=lambda s: 0 if s[0].get("case", "").startswith(("dw-", "rel-", "lostcommit-", "rw-", "rwgen-")) else 1)
         boxes[tr] = V.fold_traces(work, "OneCopyObs", "OneCopyObs.cfg", mine, timeout=2400, chunks=chunks, max_rounds=6)
     ts = [threading.Thread(target=one, args=(tr,)) for tr in sorted({s[0].get("tr") for s in good})]
     [t.start() for t in ts]
@@ -231,14 +236,21 @@ def run(chk):
         sims.append(("MC7Sim", 7, [1, 2, 3, 4], 20))
     pre = {}
 
-    def prejob(key, module, cfg, **kw):
+    def prejob(key, module, cfg, deadlock=False, **kw):
         d = os.path.join(chk.tmp, "pre-" + key)
         V.copy_specs(specsrc, d)
         os.makedirs(os.path.join(d, "b"), exist_ok=True)
-        pre[key] = (V.tlc(d, module, cfg=cfg + ".cfg", deadlock=False, **kw), d)
+        pre[key] = (V.tlc(d, module, cfg=cfg + ".cfg", deadlock=deadlock, **kw), d)
     pths = [threading.Thread(target=prejob, args=("dw", "DWReplay", "DWReplayNoFilter"), kwargs=dict(workers=1, timeout=900)),
             threading.Thread(target=prejob, args=("rel", "MCTwoPC", "MC3PinnedRPC"), kwargs=dict(workers=2, timeout=900)),
             threading.Thread(target=prejob, args=("lc", "LCReplay", "LCReplayNoRetry"), kwargs=dict(workers=1, timeout=900))]
+    # the class "a reply carries working instead of committed state": pinned generated schedules (one cheap run per
+    # model variant) and the generator searches themselves (two family members per quick run, all six otherwise)
+    pths += [threading.Thread(target=prejob, args=("rwbad", "RWReplay", "RWReplayWorking"), kwargs=dict(workers=1, timeout=900, deadlock=True)),
+             threading.Thread(target=prejob, args=("rwgood", "RWReplay", "RWReplayCommitted"), kwargs=dict(workers=1, timeout=900, deadlock=True))]
+    fams = [RW_FAMS[seed % 2], RW_FAMS[4 + seed % 2]] if quick else RW_FAMS
+    for fam in fams:
+        pths.append(threading.Thread(target=prejob, args=("rwgen_" + fam, "RWGen", "RWGen_" + fam), kwargs=dict(workers=2, timeout=1500)))
     for cfg, n, writers, num in sims:
         pths.append(threading.Thread(target=prejob, args=(cfg, "MCTwoPC", cfg), kwargs=dict(
             workers=2, timeout=1200, simulate="file=b/t,num=%d" % max(1, num // 2), depth=160, seed=seed * 1000 + n)))
@@ -262,6 +274,33 @@ def run(chk):
     if not chk.notes["model_lost_commit_blocks_writer"]:
         chk.inconclusive.append("vacuity: the model without the Commit retry no longer blocks the writer: " + str(res.error or res.violation))
     lc_acts = acts_of(res.out)
+    # reject-carries-working family: guards, pinned schedules (exported by TLC from the repaired model), generated ones
+    res = pre["rwbad"][0]
+    chk.tlc_jobs.append(res.summary("RWReplay on the variant 'reject reply carries the working value' (expected: every "
+                                    "schedule is followed and ends with two values for one version)"))
+    chk.notes["model_reject_working_breaks_one_copy"] = bool(res.ok and res.distinct > 0)
+    if not chk.notes["model_reject_working_breaks_one_copy"]:
+        chk.inconclusive.append("vacuity: the model whose reject reply carries the working value no longer ends the pinned "
+                                "schedules with two values for one version: " + str(res.error or res.violation or res.distinct))
+    res, d = pre["rwgood"]
+    chk.add_tlc("RWReplay on the repaired model (every pinned schedule is followed, invariants hold, schedules exported)", res)
+    rw_scripts = []
+    for fn in sorted(glob.glob(os.path.join(d, "rw_*.ndjson"))):
+        steps = V.read_jsonl(fn)
+        if res.ok and len(steps) > 8:
+            rw_scripts.append(("rw-" + os.path.basename(fn)[3:-7].replace("_", ""), steps))
+    if len(rw_scripts) < len(RW_FAMS):
+        chk.inconclusive.append("RWReplay exported %d of %d schedules" % (len(rw_scripts), len(RW_FAMS)))
+    for fam in fams:
+        res = pre["rwgen_" + fam][0]
+        chk.tlc_jobs.append(res.summary("RWGen %s: search on the variant (expected: a lagging proposer installs an uncommitted "
+                                        "write, SameValuePerVersion violated on the model)" % fam))
+        chk.states += res.distinct; chk.transitions += res.generated
+        acts = acts_of(res.out)
+        if res.violation and "GenInv" in res.violation and len(acts) > 8:
+            rw_scripts.append(("rwgen-" + fam.replace("_", ""), acts))
+        else:
+            chk.inconclusive.append("vacuity: RWGen %s found no behaviour of the wanted kind: %s" % (fam, res.error or res.violation or "none"))
     scripts = []
     for cfg, n, writers, num in sims:
         res, d = pre[cfg]
@@ -286,6 +325,8 @@ def run(chk):
                 cases.append(dict(script_case("rel", 3, [1, 2], rel_acts, tr, seed), solo=other))
             if len(lc_acts) > 5:
                 cases.append(dict(script_case("lostcommit", 3, [1, 2], lc_acts, tr, seed), solo=1))
+            for name, acts in rw_scripts:
+                cases.append(script_case(name, 3, [1, 2], acts, tr, seed))
             for name, n, writers, acts in scripts:
                 cases.append(script_case(name, n, writers, acts, tr, seed))
             plan = [(2, [1, 2], 6), (3, [1, 2], 10), (3, [1, 2, 3], 8), (4, [1, 2, 3], 8), (5, [1, 2, 3], 6)] if quick else \
@@ -297,7 +338,8 @@ def run(chk):
                     cases.append({"case": "free%d.%d-%d-%s" % (n, len(writers), i, tr), "mode": "free", "tr": tr, "n": n,
                                   "writers": writers, "nsteps": 70 + 25 * n, "maxsect": 3,
                                   "drops": 1 if i % 5 == 4 else 0, "dups": 1 if i % 3 == 2 else 0,
-                                  "seed": s, "solo": -1, "solotries": 3, "vabort": 0.25 if i % 2 else 0.0})
+                                  "seed": s, "solo": -1, "solotries": 3, "vabort": 0.25 if i % 2 else 0.0,
+                                  "lag": writers[i % len(writers)] if i % 2 == 0 else 0})
 
     # ------------------------------------------------------------------ 3. run them
     drv = V.build_driver("c11drv", chk.bindir)
